@@ -48,9 +48,11 @@ DO = ((("p", 1), ("q", 2)), (("p", 2), ("q", 2)), (("p", 1), ("q", 1)), (("p", 2
 _o = lambda i: ("@", "DO", i)      # noqa: E731
 DH = ((("inner", _o(0)), ("n", 1)), (("inner", _o(1)), ("n", 2)), (("inner", _o(4)), ("n", 1)))
 DC = ((("a", _o(0)), ("b", _o(2))), (("a", _o(1)), ("b", _o(3))), (("a", _o(4)), ("b", _o(3))), (("a", _o(4)), ("b", _o(2))))
+DL = ((("p", 1), ("items", ("list!", _e(0), _e(1)))), (("p", 2), ("items", ("list!",))),
+      (("p", 3), ("items", ("list!", _e(1), _e(2), _e(1)))), (("p", 4), ("items", ("list!", _e(3)))))
 DF = ((("p", 1), ("flag", True)), (("p", 2), ("flag", False)), (("p", 3), ("flag", 0)), (("p", 4), ("flag", 2)),
       (("p", 5), ("flag", "")))
-WSPEC = (("DA", "Item", DA), ("DB", "Item", DB), ("DD", "Item", DD), ("DE", "Item", DE), ("DP", "Item", DP), ("DF", "Item", DF),
+WSPEC = (("DA", "Item", DA), ("DB", "Item", DB), ("DD", "Item", DD), ("DE", "Item", DE), ("DP", "Item", DP), ("DL", "Item", DL), ("DF", "Item", DF),
          ("DO", "Other", DO), ("DH", "Holder", DH), ("DC", "Made2", DC))
 VX = ("x", "let", "Item", "DA")
 VY = ("y", "let", "Item", "DB")
@@ -97,6 +99,9 @@ SPECS = {
     "sh_cond": "special", "sh_val": "special", "sh_sel": "special", "sh_valne": "special",
     # pool G: a SUB-QUERY object that is evaluated on its own and also nested in another query; one CONDITION object
     # used by several queries (alone, as the left side of a disjunction, as a conjunct)
+    # pool H: concatenate / flatten over LIST-valued attributes (the user's own mutable collections) and queries that
+    # read those attributes per object
+    "cat_all": "special", "cat_in": "special", "cat_has": "special", "cat_flat": "special",
     "sq_part": "special", "sq_nested": "special", "cc_alone": "special", "cc_or": "special", "cc_and": "special",
     "iter": "special",
     "rule": "special",
@@ -111,6 +116,7 @@ POOLS = {
     "E": ("nd_k", "nd_join", "nd_rule", "nd_o"),
     "F": ("sh_cond", "sh_val", "sh_sel", "sh_valne"),
     "G": ("sq_part", "sq_nested", "cc_alone", "cc_or", "cc_and"),
+    "H": ("cat_all", "cat_in", "cat_has", "cat_flat"),
 }
 
 
@@ -164,6 +170,16 @@ class Pool:
             self.b.env["xi"] = xi
             with symbolic_mode():
                 self.q["iter"] = an(entity(xi, xi.p >= 2))
+        if pool == "H":
+            from entity_query_language import concatenate, flatten, in_, contains
+            xl, el = let(W.Item, self.world["DL"]), let(W.Item, self.world["DE"])
+            with symbolic_mode():
+                self.q["cat_all"] = an(entity(concatenate(xl.items)))
+                self.q["cat_in"] = an(entity(el, in_(el, concatenate(xl.items))))
+                self.q["cat_has"] = an(set_of([xl, el], contains(xl.items, el)))      # reads the attribute per object
+                fe = flatten(xl.items)
+                self.q["cat_flat"] = an(set_of([xl, fe]))
+            self.cat_sel = {"cat_has": (xl, el), "cat_flat": (xl, fe)}
         if pool == "G":
             one, two, three = inst.v(1), inst.v(2), inst.v(3)
             xg, yg = let(W.Item, self.world["DA"]), let(W.Item, self.world["DB"])
@@ -220,7 +236,11 @@ class Pool:
             self.q["rule_ref"] = rq2
 
     def _snap(self):
-        return {k: ([id(o) for o in objs], [dict(vars(o)) for o in objs]) for k, objs in self.world.items()}
+        def frozen(v):
+            # the user's own mutable collections are compared by content too (an in-place extension keeps the identity)
+            return (v, list(v)) if isinstance(v, list) else ((v, dict(v)) if isinstance(v, dict) else (v, None))
+        return {k: ([id(o) for o in objs], [{f: frozen(v) for f, v in vars(o).items()} for o in objs])
+                for k, objs in self.world.items()}
 
     def data_unchanged(self):
         now = self._snap()
@@ -228,8 +248,13 @@ class Pool:
             if now[k][0] != self.snapshot[k][0]:
                 return f"domain list {k} changed"
             for a, b in zip(now[k][1], self.snapshot[k][1]):
-                if a.keys() != b.keys() or any(a[f] is not b[f] for f in a):
+                if a.keys() != b.keys() or any(a[f][0] is not b[f][0] for f in a):
                     return f"object of {k} changed"
+                for f in a:
+                    if a[f][1] is not None and (len(a[f][1]) != len(b[f][1]) or (
+                            isinstance(a[f][1], list) and any(u is not w for u, w in zip(a[f][1], b[f][1]))) or (
+                            isinstance(a[f][1], dict) and a[f][1] != b[f][1])):
+                        return f"collection {f} of an object of {k} changed in place"
         return None
 
     def norm_result(self, name, rows):
@@ -240,6 +265,10 @@ class Pool:
             return [tuple(Q.norm(r[s]) for s in self.sh_sel) for r in rows]
         if name == "cc_and":
             return [tuple(Q.norm(r[s]) for s in self.cc_sel) for r in rows]
+        if name in ("cat_has", "cat_flat"):
+            return [tuple(Q.norm(r[s]) for s in self.cat_sel[name]) for r in rows]
+        if name == "cat_all":
+            return [Q.norm(list(r)) for r in rows]
         if spec != "special" and spec[2] == "setof":
             sel = self.b.sel[spec]
             return [tuple(Q.norm(r[s]) for s in sel) for r in rows]
@@ -322,7 +351,7 @@ def same(name, got, exp):
         # pool G: the statement promises the same result SET; with a condition object shared by several queries the order in
         # which a warm cache replays its rows depends on which query filled it first (each row still exactly once)
         return sorted(map(repr, got)) == sorted(map(repr, exp))
-    if name in ("rule", "rule_ref", "fl_pe", "fl_pred", "fl_all", "nd_rule", "nd_join", "sh_sel"):     # one row per (parent, occurrence): multiset
+    if name in ("rule", "rule_ref", "fl_pe", "fl_pred", "fl_all", "nd_rule", "nd_join", "sh_sel", "cat_flat", "cat_has"):     # one row per (parent, occurrence): multiset
         return sorted(map(repr, got)) == sorted(map(repr, exp))
     if spec == "special" or spec[2] == "entity" or name == "dupjoin":
         return got == exp if name != "dupjoin" else sorted(map(repr, got)) == sorted(map(repr, exp))
@@ -380,6 +409,12 @@ def describe(case, inst):
             lines.append(f"{name}: " + Q.up_query(spec, inst))
         elif name == "iter":
             lines.append("iter: xi = let(Item, iter(DA)); q = an(entity(xi, xi.p >= 2))")
+        elif name.startswith("cat_"):
+            lines.append({
+                "cat_all": "xl = let(Item, DL); el = let(Item, DE)\ncat_all: an(entity(concatenate(xl.items)))",
+                "cat_in": "cat_in: an(entity(el, in_(el, concatenate(xl.items))))",
+                "cat_has": "cat_has: an(set_of([xl, el], contains(xl.items, el)))",
+                "cat_flat": "cat_flat: an(set_of([xl, fe := flatten(xl.items)]))"}[name])
         elif name.startswith(("sq_", "cc_")):
             lines.append({
                 "sq_part": "xg = let(Item, DA); part1 = an(entity(xg, xg.p == 1)); part2 = an(entity(xg, xg.q == 2))\nsq_part: part1",
